@@ -282,7 +282,8 @@ fn sweep_enc_spec(rng: &mut Rng, encoders: &[&'static Encoding], k: u64, prop: &
         }
         match rng.below(4) {
             0 => text.push(Unit::Scalar('a')),
-            1 => text.push(Unit::Scalar(rng.pick(&['\u{3042}', '\u{4E00}', '\u{AC00}', '\u{E9}', '\u{FF71}']))),
+            // (U+00A5 / U+203E put the ISO-2022-JP encoder into its Roman state)
+            1 => text.push(Unit::Scalar(rng.pick(&['\u{3042}', '\u{4E00}', '\u{AC00}', '\u{E9}', '\u{FF71}', '\u{A5}', '\u{203E}']))),
             _ => {}
         }
         text.push(Unit::Scalar(char::from_u32(v).unwrap()));
@@ -421,7 +422,15 @@ pub fn generate(prop: &str, rng: &mut Rng, skip_fast: bool, run_index: u64) -> (
                     p.stall = true;
                     p.query_pct = 0;
                 }
-                "C12" => p.pipe = true,
+                "C12" => {
+                    p.pipe = true;
+                    p.submin = rng.chance(1, 3);
+                    p.submin_any_kind = true;
+                }
+                "C06" => {
+                    p.submin = rng.chance(1, 3);
+                    p.submin_any_kind = true;
+                }
                 _ => {}
             }
             (Case::Enc { spec, ops: Vec::new() }, p)
